@@ -192,6 +192,9 @@ func (r *replayer) checkGate(kind, via string, n *node, err error) {
 	want := vAccepted
 	if contains(n.exp.Gate, r.csvDep) {
 		want = vUnfinal
+		if kind == "bip112" {
+			want = vScript
+		}
 	}
 	r.st.distinct[fmt.Sprintf("gate:%s:%s:%s:h%%w=%d", kind, via, want, int(n.height+1)%r.mc.W)] = true
 	if got != want {
@@ -208,6 +211,7 @@ func (r *replayer) templateProbes(n *node) {
 	r.checkGate("bip113", "CheckConnectBlockTemplate", n, r.rc.chain.CheckConnectBlockTemplate(r.rc.probe113(n)))
 	if n.height >= 1 {
 		r.checkGate("bip68", "CheckConnectBlockTemplate", n, r.rc.chain.CheckConnectBlockTemplate(r.rc.probe68(n)))
+		r.checkGate("bip112", "CheckConnectBlockTemplate", n, r.rc.chain.CheckConnectBlockTemplate(r.rc.probe112(n)))
 	}
 }
 
@@ -268,8 +272,15 @@ func (r *replayer) processProbes() {
 		return
 	}
 	if t := r.rc.tip(); t != nil && t.height >= 1 {
-		_, _, err := r.rc.chain.ProcessBlock(r.rc.probe68(t), blockchain.BFNone)
-		r.checkGate("bip68", "ProcessBlock", t, err)
+		// (a refused block leaves the tip where it is; an accepted one moves
+		// it, so only one of the two connect-time probes is delivered)
+		if r.rng.Intn(2) == 0 {
+			_, _, err := r.rc.chain.ProcessBlock(r.rc.probe68(t), blockchain.BFNone)
+			r.checkGate("bip68", "ProcessBlock", t, err)
+		} else {
+			_, _, err := r.rc.chain.ProcessBlock(r.rc.probe112(t), blockchain.BFNone)
+			r.checkGate("bip112", "ProcessBlock", t, err)
+		}
 	}
 	ids := make([]int, 0, len(r.rc.nodes))
 	for id := range r.rc.nodes {
